@@ -32,7 +32,9 @@ package server
 // and compared with the in-order delivery (Tag group-streamdeleted-dropped).
 
 import (
+	"bytes"
 	"fmt"
+	"io"
 	"os"
 	"sort"
 	"strconv"
@@ -1469,6 +1471,86 @@ func (cx *c12Ctx) fsmRecreate(n int) {
 	}
 }
 
+// fsmRestore: a group built by a Raft log on one server, the server's FSM snapshot restored on ANOTHER (never started)
+// server: the restored group must satisfy the property like any other - every partition of every subscribed stream
+// held by exactly one subscribed member (which member is not compared: a snapshot carries members and subscriptions,
+// not assignments - DESIGN 9.4).
+func (cx *c12Ctx) fsmRestore(n int) {
+	for i := 0; i < n; i++ {
+		line := "c12 fsm-restore: create a(3), b(2); group g{x:a,b}; join y{b}; join z{a}; snapshot; restore on a fresh server"
+		st, err := func() (state string, err error) {
+			defer func() {
+				if r := recover(); r != nil {
+					err = fmt.Errorf("panic: %v", r)
+				}
+			}()
+			mk := func(id string) (*Server, string, error) {
+				dir, e := os.MkdirTemp("", "verif-c12-restore")
+				if e != nil {
+					return nil, "", e
+				}
+				cfg := getTestConfig(id, true, 0)
+				cfg.DataDir = dir
+				return New(cfg), dir, nil
+			}
+			s1, d1, e := mk("c12r1")
+			if e != nil {
+				return "", e
+			}
+			defer os.RemoveAll(d1)
+			entries := []*proto.RaftLog{c12LogStream("a", 3), c12LogStream("b", 2), c12LogGroup("x", "a", "b"), c12LogJoin("y", "b"), c12LogJoin("z", "a")}
+			for k, en := range entries {
+				if _, e := s1.apply(en, uint64(k+1), en.Op == proto.Op_CREATE_STREAM); e != nil {
+					return "", fmt.Errorf("apply %d: %v", k+1, e)
+				}
+			}
+			fs, e := s1.Snapshot()
+			if e != nil {
+				return "", e
+			}
+			sink := &c06Sink{}
+			if e := fs.Persist(sink); e != nil {
+				return "", e
+			}
+			s2, d2, e := mk("c12r2")
+			if e != nil {
+				return "", e
+			}
+			defer os.RemoveAll(d2)
+			if e := s2.Restore(io.NopCloser(bytes.NewReader(append([]byte(nil), sink.Bytes()...)))); e != nil {
+				return "", fmt.Errorf("restore: %v", e)
+			}
+			g := s2.metadata.GetConsumerGroup("g")
+			if g == nil {
+				return "", fmt.Errorf("group missing after the restore")
+			}
+			snap := c12Snapshot(g)
+			state = snap.String()
+			if d, tag := c12Oracle(snap, map[string]int32{"a": 3, "b": 2}, false); d != "" {
+				cx.res.Fail(vFailure{Kind: "spec", Case: []string{line}, Impl: []string{state}, Tag: tag,
+					Detail: "group g on the server restored from the snapshot: " + d})
+			}
+			for _, srv := range []*Server{s1, s2} {
+				for _, stn := range srv.metadata.GetStreams() {
+					stn.Close()
+				}
+				if gg := srv.metadata.GetConsumerGroup("g"); gg != nil {
+					gg.Close()
+				}
+			}
+			return state, nil
+		}()
+		cx.res.Count(fmt.Sprintf("fsm-restore:%d", i), true)
+		if err != nil {
+			cx.res.Dist("fsm-restore:error")
+			cx.res.Fail(vFailure{Kind: "disagreement", Case: []string{line}, Detail: "snapshot / restore path could not be run: " + err.Error()})
+			return
+		}
+		cx.res.Dist("fsm-restore:judged")
+		_ = st
+	}
+}
+
 // ---------------------------------------------------------------- test
 
 func TestVerifC12(t *testing.T) {
@@ -1500,10 +1582,12 @@ func TestVerifC12(t *testing.T) {
 		cx.fsm(300)
 		cx.fsmRecovery(50)
 		cx.fsmRecreate(50)
+		cx.fsmRestore(20)
 	} else {
 		cx.fsm(40)
 		cx.fsmRecovery(10)
 		cx.fsmRecreate(8)
+		cx.fsmRestore(3)
 	}
 	res.Note(fmt.Sprintf("on this code base: StreamDeleted can be delivered after a later group op: %v; a start-up replay delivers deletions after the rest of the log: %v",
 		cx.racing, cx.reorders))
